@@ -1,6 +1,9 @@
 SPEC = {'id': 'C05',
  'manifest': {'technique': 'Coq proof over a timed model of the matching loop (deadline armed/cleared, buffer bound, fail-closed) + real-time '
                            'scripted clients over TCP and UDP',
-              'level_text': 'Theorems over all timed arrival schedules about the deadline/buffer state machine of Compile + prefetch; real-time '
-                            'engine measures abort times and post-match reads for TCP and UDP connections.',
-              'level_note': 'Real clocks and scheduler slack are runtime: measured with tolerances, not proved.'}}
+              'level_text': 'matching_ends_by_deadline, buffer_bounded, fails_closed, deadline_cleared_before_handlers, not_early for TCP and for '
+                            'the UDP packetConn machine (stored-deadline granularity and timer-tick recheck read from the source), compile totality '
+                            'for sufficient fuel; the old whole-second storage and the tick-without-recheck machine are kept as refutation '
+                            'witnesses. Real-time scenarios over pipe/TCP/UDP (silent, late, trickle, flood, non-terminal-then-undecided, empty '
+                            'route list) compared with the timed model.',
+              'level_note': 'Real clocks and scheduler slack are runtime: measured with wide one-sided tolerances and one retry, not proved.'}}
